@@ -111,6 +111,7 @@ Qed.
 Lemma parse_qualified_render : forall ty rest f, ty <> [] -> nodot rest -> (List.length ty <= f)%nat ->
   parse_qualified f (qualified ty ++ rest) = Some (ty, rest).
 Proof.
+  clear pol_lt_index pol_lt_invoke index_le.
   induction ty as [|n ty IH]; intros rest f Hne Hnd Hf; [contradiction|].
   destruct f as [|f]; [cbn in Hf; lia|].
   destruct ty as [|m ty'].
@@ -340,7 +341,7 @@ Qed.
 
 (* ---- every well-formed tree ------------------------------------------------------------------------------------------ *)
 Lemma size_in a args : In a args -> size a <= sizes args.
-Proof. induction args as [|x r IH]; [contradiction|]. intros [->|H]; cbn [sizes]; [lia|]. specialize (IH H). lia. Qed.
+Proof. clear pol_lt_index pol_lt_invoke index_le. induction args as [|x r IH]; [contradiction|]. intros [->|H]; cbn [sizes]; [lia|]. specialize (IH H). lia. Qed.
 Lemma wfs_in a args : wfs args -> In a args -> wf a.
 Proof. induction args as [|x r IH]; [contradiction|]. intros [Hx Hr] [->|H]; [exact Hx|exact (IH Hr H)]. Qed.
 
@@ -384,6 +385,190 @@ Proof.
   pose proof (mono_e T F 0 _ _ E (F + f0) ltac:(lia)) as H1. rewrite (H0 (F + f0)) in H1 by lia. inversion H1. reflexivity.
 Qed.
 End F.
+
+
+(* ==== the full-parenthesis printer ================================================================================= *)
+Section G.
+Variable T : ptable.
+Hypothesis pol_lt_index : p_polarity T < p_index T.
+Hypothesis pol_lt_invoke : p_polarity T < p_invoke T.
+Hypothesis index_le : p_index T <= S (p_invoke T).
+
+Lemma render_full_unfold t : render_full t =
+  match t with
+  | Atom a => [TAtom a]
+  | Pol o e => TOp o :: (TLP :: render_full e ++ [TRP])
+  | Bin o l r => (TLP :: render_full l ++ [TRP]) ++ TOp o :: (TLP :: render_full r ++ [TRP])
+  | TypeOp o e ty => (TLP :: render_full e ++ [TRP]) ++ TOp o :: qualified ty
+  | Member e n => (TLP :: render_full e ++ [TRP]) ++ [TDot; TAtom n]
+  | Invoke e f args => (TLP :: render_full e ++ [TRP]) ++ TDot :: TAtom f :: TLP :: intersperse TComma (map render_full args) ++ [TRP]
+  | Call f args => TAtom f :: TLP :: intersperse TComma (map render_full args) ++ [TRP]
+  | Index e i => (TLP :: render_full e ++ [TRP]) ++ TLB :: render_full i ++ [TRB]
+  end.
+Proof. destruct t; reflexivity. Qed.
+
+Definition FKey (t : tree) : Prop := forall p0 rest res f,
+  p0 <= root_level T t -> tail_ok T t rest -> nolp rest ->
+  loop T f p0 t rest = Some res ->
+  exists f0, forall f', f0 <= f' -> parse_expr T f' p0 (render_full t ++ rest) = Some res.
+
+(* a parenthesised operand is read back by parse_prefix *)
+Lemma operand t rest : wf T t -> FKey t ->
+  exists f0, forall f', f0 <= f' -> parse_prefix T f' (TLP :: render_full t ++ TRP :: rest) = Some (t, rest).
+Proof.
+  intros Hw K. destruct (K 0 (TRP :: rest) (t, TRP :: rest) 1) as [f1 H1]; [lia| |exact I|reflexivity|].
+  { apply closer_tail; [exact Hw|reflexivity|exact I]. }
+  exists (S f1). intros f' Hf. destruct f' as [|f']; [lia|]. rewrite parse_prefix_S, (H1 f') by lia. reflexivity.
+Qed.
+Lemma reassoc (a : list tok) b rest : (TLP :: a ++ [TRP]) ++ b ++ rest = TLP :: a ++ TRP :: b ++ rest.
+Proof. cbn [app]. rewrite <- app_assoc. reflexivity. Qed.
+
+Lemma render_full_starts : forall t, starts_ok (render_full t).
+Proof. intro t. rewrite render_full_unfold. destruct t; cbn; exact I. Qed.
+
+Lemma fargs_parse : forall args rest, args <> [] -> (forall a, In a args -> wf T a /\ FKey a) ->
+  exists f0, forall f', f0 <= f' ->
+    parse_args T f' (intersperse TComma (map render_full args) ++ TRP :: rest) = Some (args, rest).
+Proof.
+  induction args as [|a args IH]; intros rest Hne Hall; [contradiction|].
+  destruct (Hall a (or_introl eq_refl)) as [Hwa Ka].
+  destruct args as [|b args'].
+  - cbn [map intersperse].
+    destruct (Ka 0 (TRP :: rest) (a, TRP :: rest) 1) as [f1 H1]; [lia| |exact I|reflexivity|].
+    { apply closer_tail; [exact Hwa|reflexivity|exact I]. }
+    exists (S f1). intros f' Hf. destruct f' as [|f']; [lia|]. rewrite parse_args_S, (H1 f') by lia. reflexivity.
+  - destruct (IH rest ltac:(discriminate) (fun x Hx => Hall x (or_intror Hx))) as [f2 H2].
+    set (X := intersperse TComma (map render_full (b :: args'))) in *.
+    assert (EX : intersperse TComma (map render_full (a :: b :: args')) = render_full a ++ TComma :: X) by reflexivity.
+    rewrite EX.
+    destruct (Ka 0 (TComma :: X ++ TRP :: rest) (a, TComma :: X ++ TRP :: rest) 1) as [f1 H1]; [lia| |exact I|reflexivity|].
+    { apply closer_tail; [exact Hwa|reflexivity|exact I]. }
+    exists (S (f1 + f2)). intros f' Hf. destruct f' as [|f']; [lia|].
+    rewrite <- app_assoc. cbn [app]. rewrite parse_args_S, (H1 f') by lia. rewrite (H2 f') by lia. reflexivity.
+Qed.
+Lemma fargs_text_starts args : args <> [] -> starts_ok (intersperse TComma (map render_full args)).
+Proof.
+  destruct args as [|a [|b r]]; intro H; [contradiction| |]; cbn [map intersperse].
+  - apply render_full_starts.
+  - apply starts_ok_app. apply render_full_starts.
+Qed.
+
+Theorem fkey_all : forall n t, size t < n -> wf T t -> FKey t.
+Proof.
+  induction n as [|n IH]; intros t Hs Hw; [lia|].
+  intros p0 rest res f Hp0 Htail Hnl Hloop. rewrite render_full_unfold.
+  destruct t as [a|o e|o l r|o e ty|e nm|e fn args|fn args|e i].
+  - (* atom *)
+    exists (S (S f)). intros f' Hf. destruct f' as [|[|f']]; try lia.
+    cbn [app]. rewrite parse_expr_S, (prefix_atom' T f' a rest Hnl). apply (mono_l T f); [exact Hloop|lia].
+  - (* polarity *)
+    cbn [size] in Hs. destruct Hw as [Hpol Hwe]. cbn [tail_ok] in Htail.
+    destruct (operand e rest Hwe (IH e ltac:(lia) Hwe)) as [f1 H1].
+    exists (S (S (S (S (f1 + f))))). intros f' Hf. destruct f' as [|[|[|[|f']]]]; try lia.
+    replace ((TOp o :: TLP :: render_full e ++ [TRP]) ++ rest) with (TOp o :: TLP :: render_full e ++ TRP :: rest) by (cbn [app]; rewrite <- app_assoc; reflexivity).
+    rewrite parse_expr_S, parse_prefix_S, Hpol. rewrite parse_expr_S, (H1 (S f')) by lia.
+    rewrite (loop_stops T f' (p_polarity T) e rest Htail). apply (mono_l T f); [exact Hloop|lia].
+  - (* binary *)
+    cbn [size] in Hs. destruct Hw as [Hty [Hpo [Hwl Hwr]]]. cbn [tail_ok root_level] in Htail, Hp0.
+    destruct (operand r rest Hwr (IH r ltac:(lia) Hwr)) as [fr Hr].
+    destruct (operand l (TOp o :: TLP :: render_full r ++ TRP :: rest) Hwl (IH l ltac:(lia) Hwl)) as [fl Hl].
+    exists (S (S (S (S (fl + fr + f))))). intros f' Hf. destruct f' as [|[|[|[|f']]]]; try lia.
+    rewrite <- app_assoc. rewrite reassoc. cbn [app]. rewrite <- app_assoc. cbn [app].
+    rewrite parse_expr_S, (Hl (S (S (S f')))) by lia.
+    rewrite loop_S. assert (H : Nat.leb p0 (prec T o) = true) by (apply Nat.leb_le; lia). rewrite H, Hty.
+    rewrite parse_expr_S, (Hr (S f')) by lia. rewrite (loop_stops T f' (S (prec T o)) r rest Htail).
+    apply (mono_l T f); [exact Hloop|lia].
+  - (* type operator *)
+    cbn [size] in Hs. destruct Hw as [Hty [Hpo [Hne Hwe]]]. cbn [tail_ok root_level] in Htail, Hp0.
+    destruct (operand e (TOp o :: qualified ty ++ rest) Hwe (IH e ltac:(lia) Hwe)) as [fe He].
+    exists (S (S (fe + List.length ty + f))). intros f' Hf. destruct f' as [|[|f']]; try lia.
+    rewrite <- app_assoc. rewrite reassoc. cbn [app].
+    rewrite parse_expr_S, (He (S f')) by lia.
+    rewrite loop_S. assert (H : Nat.leb p0 (prec T o) = true) by (apply Nat.leb_le; lia). rewrite H, Hty.
+    rewrite (parse_qualified_render ty rest f' Hne Htail) by lia. apply (mono_l T f); [exact Hloop|lia].
+  - (* member *)
+    cbn [size] in Hs. cbn [wf root_level] in Hw, Hp0.
+    destruct (operand e (TDot :: TAtom nm :: rest) Hw (IH e ltac:(lia) Hw)) as [fe He].
+    exists (S (S (fe + f))). intros f' Hf. destruct f' as [|[|f']]; try lia.
+    replace ((TLP :: render_full e ++ [TRP]) ++ [TDot; TAtom nm]) with ((TLP :: render_full e ++ [TRP]) ++ [TDot; TAtom nm] ++ []) by (rewrite app_nil_r; reflexivity).
+    rewrite <- app_assoc. rewrite reassoc. cbn [app].
+    rewrite parse_expr_S, (He (S f')) by lia. rewrite (loop_member T f' p0 e nm rest Hnl Hp0). apply (mono_l T f); [exact Hloop|lia].
+  - (* method invocation *)
+    rewrite size_invoke in Hs. apply (wf_invoke T) in Hw as [Hwe Hwa]. cbn [root_level] in Hp0.
+    set (X := intersperse TComma (map render_full args)).
+    assert (Hleb : Nat.leb p0 (p_invoke T) = true) by (apply Nat.leb_le; exact Hp0).
+    destruct (operand e (TDot :: TAtom fn :: TLP :: X ++ TRP :: rest) Hwe (IH e ltac:(lia) Hwe)) as [fe He].
+    assert (Htext : ((TLP :: render_full e ++ [TRP]) ++ TDot :: TAtom fn :: TLP :: X ++ [TRP]) ++ rest
+                    = TLP :: render_full e ++ TRP :: TDot :: TAtom fn :: TLP :: X ++ TRP :: rest).
+    { cbn [app]. repeat (rewrite <- app_assoc; cbn [app]). reflexivity. }
+    rewrite Htext.
+    destruct args as [|a args'].
+    + exists (S (S (fe + f))). intros f' Hf. destruct f' as [|[|f']]; try lia.
+      rewrite parse_expr_S, (He (S f')) by lia. subst X. cbn [map intersperse app]. rewrite loop_S, Hleb.
+      apply (mono_l T f); [exact Hloop|lia].
+    + assert (Hall : forall x, In x (a :: args') -> wf T x /\ FKey x).
+      { intros x Hx. pose proof (size_in x _ Hx). pose proof (wfs_in T x _ Hwa Hx) as Hwx. split; [exact Hwx|]. apply IH; [lia|exact Hwx]. }
+      destruct (fargs_parse (a :: args') rest ltac:(discriminate) Hall) as [fa Ha]. fold X in Ha.
+      pose proof (fargs_text_starts (a :: args') ltac:(discriminate)) as Hst. fold X in Hst.
+      exists (S (S (fe + fa + f))). intros f' Hf. destruct f' as [|[|f']]; try lia.
+      rewrite parse_expr_S, (He (S f')) by lia. rewrite loop_S.
+      destruct X as [|[x|o| | | | | |] X']; cbn in Hst; try contradiction; cbn [app] in *;
+        rewrite Hleb, (Ha f') by lia; apply (mono_l T f); (exact Hloop || lia).
+  - (* function call *)
+    rewrite size_call in Hs. apply (wf_call T) in Hw.
+    set (X := intersperse TComma (map render_full args)).
+    replace ((TAtom fn :: TLP :: X ++ [TRP]) ++ rest) with (TAtom fn :: TLP :: X ++ TRP :: rest) by (cbn [app]; rewrite <- app_assoc; reflexivity).
+    destruct args as [|a args'].
+    + exists (S (S f)). intros f' Hf. destruct f' as [|[|f']]; try lia.
+      subst X. cbn [map intersperse app]. rewrite parse_expr_S, parse_prefix_S. apply (mono_l T f); [exact Hloop|lia].
+    + assert (Hall : forall x, In x (a :: args') -> wf T x /\ FKey x).
+      { intros x Hx. pose proof (size_in x _ Hx). pose proof (wfs_in T x _ Hw Hx) as Hwx. split; [exact Hwx|]. apply IH; [lia|exact Hwx]. }
+      destruct (fargs_parse (a :: args') rest ltac:(discriminate) Hall) as [fa Ha]. fold X in Ha.
+      pose proof (fargs_text_starts (a :: args') ltac:(discriminate)) as Hst. fold X in Hst.
+      exists (S (S (fa + f))). intros f' Hf. destruct f' as [|[|f']]; try lia.
+      rewrite parse_expr_S, parse_prefix_S.
+      destruct X as [|[x|o| | | | | |] X']; cbn in Hst; try contradiction; cbn [app] in *;
+        rewrite (Ha f') by lia; apply (mono_l T f); (exact Hloop || lia).
+  - (* indexer *)
+    cbn [size] in Hs. destruct Hw as [Hwe Hwi]. cbn [root_level] in Hp0.
+    destruct (IH i ltac:(lia) Hwi 0 (TRB :: rest) (i, TRB :: rest) 1) as [fi Hi]; [lia| |exact I|reflexivity|].
+    { apply closer_tail; [exact Hwi|reflexivity|exact I]. }
+    destruct (operand e (TLB :: render_full i ++ TRB :: rest) Hwe (IH e ltac:(lia) Hwe)) as [fe He].
+    exists (S (S (fe + fi + f))). intros f' Hf. destruct f' as [|[|f']]; try lia.
+    assert (Htext : ((TLP :: render_full e ++ [TRP]) ++ TLB :: render_full i ++ [TRB]) ++ rest
+                    = TLP :: render_full e ++ TRP :: TLB :: render_full i ++ TRB :: rest).
+    { cbn [app]. repeat (rewrite <- app_assoc; cbn [app]). reflexivity. }
+    rewrite Htext. rewrite parse_expr_S, (He (S f')) by lia.
+    rewrite loop_S. assert (H : Nat.leb p0 (p_index T) = true) by (apply Nat.leb_le; lia). rewrite H.
+    rewrite (Hi f') by lia. apply (mono_l T f); [exact Hloop|lia].
+Qed.
+
+(* the fully parenthesised rendering of a well-formed tree parses back to it *)
+Theorem parse_render_full : forall t rest, wf T t -> tail_ok T t rest -> nolp rest -> absorbs T 0 rest = false ->
+  exists f0, forall f, f0 <= f -> parse_expr T f 0 (render_full t ++ rest) = Some (t, rest).
+Proof.
+  intros t rest Hw Ht Hnl Ha.
+  apply (fkey_all (S (size t)) t (Nat.lt_succ_diag_r _) Hw 0 rest (t, rest) 1); [lia|exact Ht|exact Hnl|apply loop_stops; exact Ha].
+Qed.
+Corollary parse_prog_render_full t : wf T t -> forall t', parse_prog T (render_full t) = Some t' -> t' = t.
+Proof.
+  intros Hw t' H.
+  destruct (parse_render_full t [] Hw ltac:(apply closer_tail; [exact Hw|reflexivity|exact I]) I eq_refl) as [f0 H0].
+  rewrite app_nil_r in H0. unfold parse_prog in H.
+  set (F := 4 * List.length (render_full t) + 8) in H.
+  destruct (parse_expr T F 0 (render_full t)) as [[t1 r1]|] eqn:E; [|discriminate].
+  destruct r1; [|discriminate]. inversion H; subst t1. clear H.
+  pose proof (mono_e T F 0 _ _ E (F + f0) ltac:(lia)) as H1. rewrite (H0 (F + f0)) in H1 by lia. inversion H1. reflexivity.
+Qed.
+(* hence both renderings of a tree denote the same tree *)
+Corollary renderings_agree t : wf T t -> forall a b,
+  parse_prog T (render_min T 0 t) = Some a -> parse_prog T (render_full t) = Some b -> a = b.
+Proof.
+  intros Hw a b Ha Hb.
+  rewrite (parse_prog_render_min T pol_lt_index pol_lt_invoke index_le t Hw a Ha).
+  rewrite (parse_prog_render_full t Hw b Hb). reflexivity.
+Qed.
+End G.
 
 (* the table of fhirpath.g4 meets the three side conditions, and a tree using every node kind is well-formed *)
 Example fhirpath_table_conditions :
